@@ -79,6 +79,9 @@ type Scn struct {
 	// Ahead: user input the terminal sends while the library's start-up queries are
 	// outstanding (type-ahead): its events are the first ones of the judged stream
 	Ahead []Ahead `json:",omitempty"`
+	// Behind: user input that follows the terminal's primary device attributes reply (the reply which
+	// ends start-up) in the same read: it was typed later than every Ahead report and comes after them
+	Behind []Report `json:",omitempty"`
 	// XTWinOps: the application asks the terminal for its size (VAXIS_FORCE_XTWINOPS)
 	XTWinOps bool `json:",omitempty"`
 }
@@ -199,9 +202,18 @@ func Execute(sc *Scn) *Result {
 	con := fakecon.New(80, 24)
 	// type-ahead: sent between the replies to the start-up queries
 	ahead, nreply := append([]Ahead(nil), sc.Ahead...), 0
+	behind := sc.Behind
 	resp := responder.New(caps, 80, 24, func(b []byte) {
+		da1 := bytes.HasPrefix(b, []byte("\x1b[?")) && bytes.HasSuffix(b, []byte("c"))
+		if da1 && len(behind) > 0 {
+			// one write of the terminal: the reply and what was typed right after it
+			b = append([]byte(nil), b...)
+			for _, r := range behind {
+				b = append(b, unhex(r.Hex)...)
+			}
+			behind = nil
+		}
 		if len(ahead) > 0 {
-			da1 := bytes.HasPrefix(b, []byte("\x1b[?")) && bytes.HasSuffix(b, []byte("c"))
 			for len(ahead) > 0 && (da1 || ahead[0].Before <= nreply) {
 				var t []byte
 				for _, r := range ahead[0].Reports {
@@ -309,7 +321,7 @@ func Execute(sc *Scn) *Result {
 		res.Note = "stalled right after start-up"
 		return res
 	}
-	if len(sc.Ahead) == 0 {
+	if len(sc.Ahead) == 0 && len(sc.Behind) == 0 {
 		emu.Lock()
 		res.Events = res.Events[:0]
 		emu.Unlock()
@@ -886,6 +898,25 @@ func TypeAhead(rng *rand.Rand) *Scn {
 	}
 	sc.Steps = append(sc.Steps, Step{Op: "inject", Reports: later})
 	return sc
+}
+
+// TypeAheadBehind: input on both sides of the reply which ends start-up, the later part in the same
+// read as that reply: the order of the keys is the order they were typed in.
+func TypeAheadBehind() []*Scn {
+	var out []*Scn
+	for _, q := range []int{0, 1, 2, 4} {
+		for _, mask := range []int{0, 1<<15 - 1, 1 << 4} {
+			out = append(out, &Scn{Kind: "typeahead", Mask: mask, QSize: q,
+				Ahead:  []Ahead{{Before: 99, Reports: []Report{ta(plain('a')), ta(plain('b')), ta(plain('c'))}}},
+				Behind: []Report{ta(plain('d')), ta(plain('e')), ta(plain('f'))},
+				Steps:  []Step{{Op: "inject", Reports: []Report{plain('1')}}}})
+			out = append(out, &Scn{Kind: "typeahead", Mask: mask, QSize: q,
+				Ahead:  []Ahead{{Before: 0, Reports: []Report{ta(plain('p'))}}, {Before: 99, Reports: []Report{ta(plain('q'))}}},
+				Behind: []Report{ta(plain('r')), ta(plain('s'))},
+				Steps:  []Step{{Op: "inject", Reports: []Report{plain('2')}}}})
+		}
+	}
+	return out
 }
 
 // TypeAheadEach: "hi" typed right before the reply which ends start-up, per queue size
